@@ -950,6 +950,9 @@ func (fc *FnCtx) regionsOf(m *Clause, env *SpecEnv) []region {
 					if !ok {
 						srt = fc.eng.regionSorts[k]
 					}
+					if srt == "" {
+						srt = map[string]string{"$chanclosed": "(Array Int Bool)", "$condsleep": "(Array Int Int)", "$condwoken": "(Array Int Int)", "$held": heldSort}[k]
+					}
 					out = append(out, region{key: k, sort: srt})
 				}
 				return out
